@@ -450,7 +450,7 @@ class PureFn:
 
             def branch(bs):
                 saved = dict(self.env)
-                txt = "".join(self.stmt(st, ind + "    ") for st in bs)
+                txt = self.seq(list(bs), ind + "    ", in_loop)
                 tys = [self.env[n] for n in names]
                 self.env = saved
                 return txt + "%s    %s\n" % (ind, self.tup(names)), tys
@@ -474,6 +474,21 @@ class PureFn:
         if isinstance(s, ast.For):
             return self.loop(s, rest, in_loop, ind) + self.block(rest, ind, in_loop)
         return self.stmt(s, ind) + self.block(rest, ind, in_loop)
+
+    def seq(self, stmts, ind, in_loop):
+        """statements of a branch (no value at the end): assignments, stores and loops"""
+        out = ""
+        for s in stmts:
+            sp = self.special(s, ind)
+            if sp is not None:
+                out += sp
+            elif isinstance(s, ast.For):
+                out += self.loop(s, [], in_loop, ind)
+            elif isinstance(s, ast.If):
+                raise Untranslatable("nested `if` inside a branch")
+            else:
+                out += self.stmt(s, ind)
+        return out
 
     def stmt(self, s, ind):
         if isinstance(s, ast.Assign) and len(s.targets) == 1:
